@@ -21,11 +21,18 @@ import (
 	"runtime/debug"
 	"strings"
 	"sync"
+	"sync/atomic"
 	"time"
 )
 
 // Handler runs one case and returns a JSON-encodable observation.
 type Handler func(c json.RawMessage) any
+
+var restartRequested bool
+
+// RequestRestart asks the supervisor for a fresh child process after the current case (used when a case
+// leaves goroutines behind that would disturb the next one). Not a crash: nothing is blamed.
+func RequestRestart() { restartRequested = true }
 
 // Result is one line of the output file.
 type Result struct {
@@ -204,6 +211,11 @@ func runChild(h Handler) {
 				b, _ = json.Marshal(map[string]any{"harness_error": jerr.Error()})
 			}
 			fmt.Fprintf(w, "E %d %s\n", n, b)
+			if restartRequested {
+				fmt.Fprintf(w, "R\n")
+				_ = w.Flush()
+				os.Exit(0)
+			}
 			_ = w.Flush()
 			n++
 		}
@@ -214,6 +226,7 @@ func runChild(h Handler) {
 }
 
 type childProc struct {
+	sawR   atomic.Bool
 	cmd    *exec.Cmd
 	stdin  io.WriteCloser
 	lines  chan string
@@ -274,7 +287,9 @@ func startChild() (*childProc, error) {
 		r := bufio.NewReaderSize(stdout, 1<<20)
 		for {
 			line, err := r.ReadString('\n')
-			if line != "" {
+			if strings.TrimSpace(line) == "R" {
+				cp.sawR.Store(true)
+			} else if line != "" {
 				cp.lines <- strings.TrimRight(line, "\n")
 			}
 			if err != nil {
@@ -337,6 +352,17 @@ func runShard(cases []json.RawMessage, results []Result, s, e int, timeout time.
 		res, st := cp.runOne(cases[i], timeout)
 		if st == "" {
 			results[i] = Result{Res: res}
+			if cp.sawR.Load() {
+				cp.kill()
+				cp = nil
+			}
+			continue
+		}
+		if st == "died" && cp.sawR.Load() {
+			// the child had asked for a restart after the previous case: not a crash, run this case again
+			cp.kill()
+			cp = nil
+			i--
 			continue
 		}
 		time.Sleep(50 * time.Millisecond) // let stderr drain
